@@ -25,13 +25,16 @@ structure View where
   connectReturned : Option Bool
   accepted : List Req
   rejected : Nat
+  ctxCancelled : Bool
+  connectErr : Bool
 
 def view (w : World) : View :=
   { cfg := w.cfg, handler := w.handler, cli := w.cli, handled := w.handled,
     phase := w.phase, dials := w.dials,
     stopped := w.stopped, waits := w.waits, waitExp := w.waitExp, initialized := w.initialized,
     connReady := w.connReady, goroutine := w.goroutine, connectReturned := w.connectReturned,
-    accepted := w.accepted, rejected := w.rejected }
+    accepted := w.accepted, rejected := w.rejected,
+    ctxCancelled := w.ctxCancelled, connectErr := w.connectErr }
 
 theorem view_send (w : World) (k : Nat) (p : Pkt) (b : Bool) : view (send w k p b).1 = view w := by
   unfold send nextFault
@@ -553,14 +556,14 @@ theorem connackOk_pre (w : World) (k : Nat) (sp : Bool) (inb : List (Nat × Nat)
     exact hW0.trans (lle_of_pointwise (fun j => deliverAll_conns k inb W0 j))
   · rw [a7, deliverAll_handled, hal, hha]; rfl
 
-/-- a failed Connect: the connection is closed; the loop backs off and dials again, or exits if the
-    client has been stopped -/
+/-- a failed Connect: the connection is closed; the loop starts backing off (no DialContext call yet:
+    that needs `.waitElapsed`), or exits if the client has been stopped -/
 theorem connectFailed_frame (w : World) (k : Nat) :
     let W := connectFailed w k
     W.handler = w.handler ∧ W.cli = w.cli ∧ W.cfg = w.cfg ∧ W.stuck = w.stuck ∧ W.faults = w.faults ∧
     W.handled = w.handled ∧ W.conns = (kill w k).conns ∧
-    W.phase = (if w.stopped then .exited else .dialGate) ∧ W.stopped = w.stopped ∧
-    W.dials = (if w.stopped then w.dials else w.dials + 1) := by
+    W.phase = (if w.stopped then .exited else .backoff) ∧ W.stopped = w.stopped ∧
+    W.dials = w.dials := by
   unfold connectFailed
   dsimp only
   have hs : (kill { w with connReady := true } k).stopped = w.stopped := rfl
@@ -572,10 +575,14 @@ theorem connectFailed_frame (w : World) (k : Nat) :
 theorem step_handler (w : World) (e : Ev) :
     (step w e).handler = match e with | .handle h => some h | _ => w.handler := by
   cases e with
-  | start => simp only [step]; split <;> rfl
+  | start => simp only [step]; split <;> (try split) <;> rfl
   | app r => simp only [step]; split; rfl; exact (pf_progress _).handler
   | dialOk i => simp only [step]; split <;> rfl
   | dialFail => simp only [step]; split <;> (try split) <;> rfl
+  | waitElapsed => simp only [step]; split <;> rfl
+  | cancelCtx =>
+    simp only [step]; split; rfl
+    split <;> first | rfl | exact (pf_progress _).handler
   | connackOk sp inb =>
     dsimp only
     cases hph : w.phase with
@@ -618,8 +625,26 @@ theorem step_HInv (w : World) (e : Ev) (hi : HInv w) : HInv (step w e) := by
   cases e with
   | start =>
     simp only [step]; split
+    · exact hi
+    · split <;> (refine hi.frame rfl rfl ?_ (LLe.refl _); intro j hj; simp at hj)
+  | waitElapsed =>
+    simp only [step]; split
     · refine hi.frame rfl rfl ?_ (LLe.refl _); intro j hj; simp at hj
     · exact hi
+  | cancelCtx =>
+    simp only [step]; split
+    · exact hi
+    · have hW0 : HInv { w with ctxCancelled := true } := hi.frame rfl rfl (fun _ h => h) (LLe.refl _)
+      split
+      · exact hW0
+      · refine hi.frame rfl rfl ?_ (LLe.refl _); intro j hj; simp at hj
+      · refine hi.frame rfl rfl ?_ (LLe.refl _); intro j hj; simp at hj
+      · refine HInv.pf ?_ (pf_progress _)
+        refine hi.frame rfl rfl ?_ ?_
+        · intro j hj; simp at hj
+        · lle
+      · exact hi.frame rfl rfl (fun _ h => h) (LLe.refl _)
+      · exact hW0
   | app r =>
     simp only [step]; split
     · exact hi.frame rfl rfl (fun _ h => h) (LLe.refl _)
@@ -641,7 +666,7 @@ theorem step_HInv (w : World) (e : Ev) (hi : HInv w) : HInv (step w e) := by
     · exact hi
     · split
       · refine hi.frame rfl rfl ?_ (LLe.refl _); intro j hj; simp at hj
-      · exact hi.frame rfl rfl (fun _ h => h) (LLe.refl _)
+      · refine hi.frame rfl rfl ?_ (LLe.refl _); intro j hj; simp at hj
   | connackOk sp inb =>
     cases hph : w.phase with
     | connackGate k =>
@@ -725,7 +750,11 @@ def handOver (w : World) : Ev → List (Nat × Nat × Nat)
 
 theorem step_handled (w : World) (e : Ev) (hi : HInv w) : (step w e).handled = w.handled ++ handOver w e := by
   cases e with
-  | start => simp only [step, handOver]; split <;> simp
+  | start => simp only [step, handOver]; split <;> (try split) <;> simp
+  | waitElapsed => simp only [step, handOver]; split <;> simp
+  | cancelCtx =>
+    simp only [step, handOver]; split; simp
+    split <;> first | (rw [(pf_progress _).handled]; simp [kill, setConn]) | simp
   | app r => simp only [step, handOver]; split; simp; rw [(pf_progress _).handled]; simp [pushTask]
   | dialOk i => simp only [step, handOver]; split <;> simp
   | dialFail => simp only [step, handOver]; split <;> (try split) <;> simp
